@@ -41,6 +41,7 @@ type writeOp struct {
 type scenario struct {
 	Conn   string    `json:"conn"` // buffer | dpipe | udp | vnet | bridge
 	Sets   []setOp   `json:"sets"`
+	Sets2  []setOp   `json:"sets2,omitempty"` // a second worker setting deadlines concurrently
 	Reads  []readOp  `json:"reads"`
 	Writes []writeOp `json:"writes"`
 }
@@ -82,6 +83,22 @@ func gen(r *harn.Rng, tier string) interface{} {
 			op.Kind, op.DurNs = "future", durs[r.Intn(len(durs))]
 		}
 		sc.Sets = append(sc.Sets, op)
+	}
+	if r.Bool(0.2) {
+		for i, n := 0, r.Range(1, 3); i < n; i++ {
+			op := setOp{SleepNs: sl(), Both: r.Bool(0.3)}
+			switch r.Intn(5) {
+			case 0:
+				op.Kind = "zero"
+			case 1:
+				op.Kind, op.DurNs = "past", durs[r.Intn(len(durs))]
+			case 2:
+				op.Kind, op.DurNs = "future", int64(time.Hour)
+			default:
+				op.Kind, op.DurNs = "future", durs[r.Intn(len(durs))]
+			}
+			sc.Sets2 = append(sc.Sets2, op)
+		}
 	}
 	for i, n := 0, r.Range(1, 5); i < n; i++ {
 		sc.Reads = append(sc.Reads, readOp{SleepNs: sl()})
@@ -246,47 +263,54 @@ func run(env *simrt.Env, sci interface{}) {
 	if c == nil {
 		return
 	}
-	var sets []setRec
+	var sets []*setRec
 	reads := make([]*readRec, len(sc.Reads))
 	var hs []*simrt.Handle
-	hs = append(hs, env.Go("setter", func() {
-		for _, o := range sc.Sets {
-			env.Sleep(time.Duration(o.SleepNs))
-			var v time.Time
-			switch o.Kind {
-			case "past":
-				v = env.Now().Add(-time.Duration(o.DurNs))
-			case "future":
-				v = env.Now().Add(time.Duration(o.DurNs))
-			case "epoch":
-				v = time.Unix(0, 1)
-			case "same":
-				var prev []time.Time
-				for _, s := range sets {
-					if !s.val.IsZero() {
-						prev = append(prev, s.val)
+	setter := func(ops []setOp) func() {
+		return func() {
+			for _, o := range ops {
+				env.Sleep(time.Duration(o.SleepNs))
+				var v time.Time
+				switch o.Kind {
+				case "past":
+					v = env.Now().Add(-time.Duration(o.DurNs))
+				case "future":
+					v = env.Now().Add(time.Duration(o.DurNs))
+				case "epoch":
+					v = time.Unix(0, 1)
+				case "same":
+					var prev []time.Time
+					for _, s := range sets {
+						if !s.val.IsZero() {
+							prev = append(prev, s.val)
+						}
+					}
+					if len(prev) > 0 {
+						v = prev[o.Ref%len(prev)]
+					} else {
+						v = env.Now().Add(time.Millisecond)
 					}
 				}
-				if len(prev) > 0 {
-					v = prev[o.Ref%len(prev)]
+				rec := &setRec{val: v, past: o.Kind == "past" || o.Kind == "epoch" || (o.Kind == "same" && !v.After(env.Now())), inv: env.Stamp()}
+				sets = append(sets, rec)
+				var err error
+				if o.Both {
+					err = c.setBoth(v)
 				} else {
-					v = env.Now().Add(time.Millisecond)
+					err = c.setRead(v)
+				}
+				rec.ret = env.Stamp()
+				if err != nil {
+					env.Fail("C10/set-deadline-error", "%s: setting the deadline failed: %v", sc.Conn, err)
+					return
 				}
 			}
-			sets = append(sets, setRec{val: v, past: o.Kind == "past" || o.Kind == "epoch" || (o.Kind == "same" && !v.After(env.Now())), inv: env.Stamp()})
-			var err error
-			if o.Both {
-				err = c.setBoth(v)
-			} else {
-				err = c.setRead(v)
-			}
-			sets[len(sets)-1].ret = env.Stamp()
-			if err != nil {
-				env.Fail("C10/set-deadline-error", "%s: setting the deadline failed: %v", sc.Conn, err)
-				return
-			}
 		}
-	}))
+	}
+	hs = append(hs, env.Go("setter", setter(sc.Sets)))
+	if len(sc.Sets2) > 0 {
+		hs = append(hs, env.Go("setter2", setter(sc.Sets2)))
+	}
 	readerH := env.Go("reader", func() {
 		buf := make([]byte, 2048)
 		for i, o := range sc.Reads {
@@ -321,24 +345,45 @@ func run(env *simrt.Env, sci interface{}) {
 	}
 	// in force during a read: the last Set completed before its invocation plus every
 	// Set overlapping it
-	inForce := func(r *readRec) (vals []time.Time, overlapping bool) {
-		last := -1
+	// possiblyLast: the Sets completed before event `before` that no other Set, begun after
+	// they returned and completed before `before`, has certainly replaced (with two setters
+	// overlapping Sets leave more than one)
+	possiblyLast := func(before uint64) (idx []int) {
 		for i, s := range sets {
-			if s.ret != 0 && s.ret < r.inv {
-				last = i
+			if s.ret == 0 || s.ret >= before {
+				continue
+			}
+			replaced := false
+			for _, t := range sets {
+				if t != s && t.inv > s.ret && t.ret != 0 && t.ret < before {
+					replaced = true
+				}
+			}
+			if !replaced {
+				idx = append(idx, i)
 			}
 		}
-		if last >= 0 {
-			vals = append(vals, sets[last].val)
-		} else {
+		return
+	}
+	inForce := func(r *readRec) (vals []time.Time, overlapping bool) {
+		cand := possiblyLast(r.inv)
+		isCand := map[int]bool{}
+		for _, i := range cand {
+			vals = append(vals, sets[i].val)
+			isCand[i] = true
+		}
+		if len(cand) == 0 {
 			vals = append(vals, time.Time{})
+		}
+		if len(cand) > 1 {
+			overlapping = true // which of them is in force is not determined
 		}
 		end := r.ret
 		if !r.done {
 			end = ^uint64(0)
 		}
 		for i, s := range sets {
-			if i != last && s.inv < end && (s.ret == 0 || s.ret > r.inv) {
+			if !isCand[i] && s.inv < end && (s.ret == 0 || s.ret > r.inv) {
 				vals = append(vals, s.val)
 				overlapping = true
 			}
@@ -365,20 +410,24 @@ func run(env *simrt.Env, sci interface{}) {
 		}
 		vals, overlapping := inForce(r)
 		gov := -1
-		for k, s := range sets {
-			if s.ret != 0 && s.ret < r.inv {
-				gov = k
-			}
+		if c := possiblyLast(r.inv); len(c) == 1 {
+			gov = c[0]
 		}
 		if !r.done {
 			// liveness at quiescence: every timer has fired; a read still blocked under a
 			// non-zero deadline should have been released (the bridge case does not quiesce)
-			// the setter is one worker: all its Sets have completed by now and the last one rules
+			// every Set has completed by now; the one(s) nothing replaced rule. If each of them is
+			// a non-zero time (all passed at quiescence) the read must have been released
 			lastSet := time.Time{}
-			if len(sets) > 0 {
-				lastSet = sets[len(sets)-1].val
+			final := possiblyLast(^uint64(0))
+			allNonZero := len(final) > 0
+			for _, i := range final {
+				if sets[i].val.IsZero() {
+					allNonZero = false
+				}
+				lastSet = sets[i].val
 			}
-			if sc.Conn != "bridge" && !lastSet.IsZero() {
+			if sc.Conn != "bridge" && allNonZero {
 				env.Fail("C10/blocked-past-deadline", "%s: read #%d (invoked at %s) is still blocked at quiescence although the deadline in force (%s, the last one set) has passed", sc.Conn, i, rel(r.tInv), rel(lastSet))
 				return
 			}
@@ -441,6 +490,11 @@ func shrinkSc(sci interface{}) []interface{} {
 	for i := range sc.Sets {
 		c := *sc
 		c.Sets = append(append([]setOp(nil), sc.Sets[:i]...), sc.Sets[i+1:]...)
+		out = append(out, &c)
+	}
+	if len(sc.Sets2) > 0 {
+		c := *sc
+		c.Sets2 = nil
 		out = append(out, &c)
 	}
 	for i := range sc.Reads {
